@@ -4,6 +4,22 @@ import json, os
 V = os.path.dirname(os.path.dirname(os.path.abspath(__file__)))
 ALL = ["C%02d" % i for i in range(1, 19)]
 CHECKS = {
+ "C11": dict(cat="exploration", ref="5 C11",
+   text="Every decoy class (comments incl. EOF without newline, unconfigured/prefix/suffix/other-path macros, non-literal invocations, macro text in escaped strings) x position x macro set x style is placed among real statements and run through the real binary in both modes; no reported location, inserted token or parser entry may fall inside a decoy's byte range.",
+   note="Decoy byte ranges by construction; hook trace as extra observation; raw strings are not decoys.",
+   tech="runtime monitoring: generated decoy workloads + byte-range oracle over check report, edit decomposition, hook trace"),
+ "C12": dict(cat="exploration", ref="5 C12",
+   text="Bounded-exhaustive: all strings of length <=3 (quick) / <=5 (thorough) over a 12-symbol alphabet at the message start and after '[ref: ', all single-character edits of valid tokens and numeric boundaries, executed through the real binary and compared with an independent model of the rule in check report, edit result and the number the parser read (hook). Exhaustive only for the stated finite space.",
+   note="Independent regex model (DESIGN 4.4); hook trace for the value read; statements near the top of the ID range live in files of their own.",
+   tech="runtime monitoring: bounded-exhaustive input enumeration + reference-model oracle + parser trace hook"),
+ "C13": dict(cat="exploration", ref="5 C13",
+   text="Structured-mode statements (pairwise-covering feature rows) with no ref / valid ref / unusable ref at every key-value position are executed in both modes; placement region, separator, recognition (hook) and untouched-ness are asserted per statement.",
+   note="Generator ground truth; ambiguous literals (out of range, hex, suffixed, non-simple values) get only the safety assertions.",
+   tech="runtime monitoring: generated workloads + ground-truth oracle + parser trace hook"),
+ "C14": dict(cat="exploration", ref="5 C14",
+   text="Directive placements (kind/near-miss, comment style, case, padding, blank lines, intervening lines, several statements per line, multi-line, multi-byte context, both styles; pairwise/3-way covering) each with guard statements before and after are executed in both modes and judged against an independent model of the directive rule.",
+   note="Model of the rule as stated in the property; trailing-comment directives on code lines, doc comments and multi-line block comments are not generated (don't-care).",
+   tech="runtime monitoring: generated placements + reference-model oracle over check report and edit decomposition"),
  "C10": dict(cat="exploration", ref="5 C10",
    text="Generated canonical statements (measured pairwise/3-way feature coverage) are run through the real binary in both modes and styles; each must be reported at and edited at the ground-truth position. Runtime observation of executions, not a proof over all statements.",
    note="Generator ground truth for the canonical statement space (DESIGN 4.3); pinned 'Missing reference in file' phrase; known finding D13 listed in KNOWN_FINDINGS.txt.",
